@@ -31,6 +31,35 @@ const TAILS: [(&str, &[&str]); 13] = [
     ("?", &["z", ""]),
 ];
 
+/// (text before a group, text after it) that put the group inside a glob
+/// character class.
+const CLASS_WRAPS: [(&str, &str); 12] = [
+    ("[", "]"), ("[!", "]"), ("[]", "]"), ("[!]", "]"), ("[^", "]"), ("[^]", "]"),
+    ("[x", "y]"), ("[]x", "]"), ("[!]x", "z]"), ("[0-", "]"), ("[", "-z]"), ("[[", "]]"),
+];
+
+/// Names that match an expansion through a character class: the first class
+/// of `e` (closed the way glob closes it) replaced by each of its own
+/// characters and by a few outsiders.
+fn class_probes(e: &str) -> Vec<String> {
+    let c: Vec<char> = e.chars().collect();
+    let Some(i) = c.iter().position(|x| *x == '[') else { return vec![] };
+    let mut j = i + 1;
+    if j < c.len() && (c[j] == '!' || c[j] == '^') {
+        j += 1;
+    }
+    if j < c.len() && c[j] == ']' {
+        j += 1;
+    }
+    let Some(k) = (j..c.len()).find(|&k| c[k] == ']') else { return vec![] };
+    let mut probes: Vec<char> = c[i + 1..k].to_vec();
+    probes.extend(['z', 'q', ']', '!', '^', '-', '1', 'b']);
+    probes.sort();
+    probes.dedup();
+    let (head, tail): (String, String) = (c[..i].iter().collect(), c[k + 1..].iter().collect());
+    probes.into_iter().map(|p| format!("{head}{p}{tail}")).collect()
+}
+
 fn gen_seq(r: &mut Rng, depth: usize, out: &mut String, groups: &mut usize, maxdepth: &mut usize, cur: usize) {
     let items = r.range(1, 3);
     for _ in 0..items {
@@ -38,6 +67,14 @@ fn gen_seq(r: &mut Rng, depth: usize, out: &mut String, groups: &mut usize, maxd
             // a group
             *groups += 1;
             *maxdepth = (*maxdepth).max(cur + 1);
+            // ... sometimes inside a glob character class: every construct of
+            // the pattern language inside every other one.  (The class is
+            // closed per expansion, by whatever the glob rules say about the
+            // expanded text - a ']' or '!' standing first is a member.)
+            let wrap = if r.chance(1, 10) { Some(*r.pick(&CLASS_WRAPS)) } else { None };
+            if let Some((head, _)) = wrap {
+                out.push_str(head);
+            }
             out.push('{');
             let alts = match r.below(10) {
                 0 => 1,
@@ -56,6 +93,9 @@ fn gen_seq(r: &mut Rng, depth: usize, out: &mut String, groups: &mut usize, maxd
                 }
             }
             out.push('}');
+            if let Some((_, tail)) = wrap {
+                out.push_str(tail);
+            }
         } else {
             if r.chance(1, 12) {
                 let lits: Vec<&'static str> = crate::corpus::literal_strs(&["pattern", "dewey", "pkgname"])
@@ -249,7 +289,7 @@ fn brace_stats(p: &str) -> (usize, usize) {
 
 pub fn run(cx: &mut Cx) {
     cx.default_budget();
-    for k in ["compile/nested", "compile/not-nested", "verdict/match", "verdict/no-match", "names/mispairing-not-in-expansion", "depth/2", "depth/3", "groups/3"] {
+    for k in ["compile/nested", "compile/not-nested", "verdict/match", "verdict/no-match", "names/mispairing-not-in-expansion", "names/through-a-class-around-a-group", "depth/2", "depth/3", "groups/3"] {
         cx.ev.require(k);
     }
     if cx.tier != Tier::Mini {
@@ -301,6 +341,7 @@ pub fn run(cx: &mut Cx) {
         // candidate names
         let mut names: Vec<String> = vec![];
         let mut mis_outside = 0u64;
+        let mut class_names = 0u64;
         if opat::braces_nested(&g.prefix) {
             let exps = opat::expand(&g.prefix);
             let truth: std::collections::HashSet<&String> = exps.iter().collect();
@@ -313,6 +354,12 @@ pub fn run(cx: &mut Cx) {
                     names.push(format!("{}{}", exps[i], suf));
                 }
                 names.push(mutate(&mut r, &format!("{}{}", exps[i], sufs[0])));
+                if exps[i].contains('[') {
+                    for pr in class_probes(&exps[i]).into_iter().take(14) {
+                        names.push(format!("{pr}{}", sufs[0]));
+                        class_names += 1;
+                    }
+                }
             }
             for m in mispairings(&g.prefix).into_iter().take(12) {
                 if !truth.contains(&m) {
@@ -341,6 +388,7 @@ pub fn run(cx: &mut Cx) {
             || format!("pattern {p:?} names {names:?}"),
             |ev| {
                 ev.add("names/mispairing-not-in-expansion", mis_outside);
+                ev.add("names/through-a-class-around-a-group", class_names);
                 ev.max("max/work-units(names x expansions x groups)", work);
                 ev.count("workload/trees");
                 check_case(ev, &p, &names, groups, depth)
